@@ -508,3 +508,29 @@ package backend
 //@   assigns connOut
 //@   ensures ret1 == nil ==> ret0 != nil && old(connOut[ret0]) == 0 && connOut[ret0] == 1 && forall(c PooledConnect, c != ret0 ==> connOut[c] == old(connOut[c]))
 //@   ensures ret1 != nil ==> ret0 == nil && forall(c PooledConnect, connOut[c] == old(connOut[c]))
+
+// ---------------------------------------------------------------- C25 candidates of the three balancers
+// getIndicesAndWeights: the global list holds exactly the replicas with a positive weight, each once, in node order, paired with
+// its weight; the local list those of the proxy's datacenter, the remote list the others
+//@ pure paired(l *IndexWeightList, dbi *DBInfo) bool = len(l.Indices) == len(l.Weights) && forall(q, 0, len(l.Indices), 0 <= l.Indices[q] && l.Indices[q] < len(dbi.Nodes) && dbi.Nodes[l.Indices[q]] != nil && dbi.Nodes[l.Indices[q]].Weight > 0 && l.Weights[q] == dbi.Nodes[l.Indices[q]].Weight)
+//@ pure increasing(l *IndexWeightList) bool = forall(a, 0, len(l.Indices), forall(b, a + 1, len(l.Indices), l.Indices[a] < l.Indices[b]))
+//@ pure below(l *IndexWeightList, k int) bool = forall(q, 0, len(l.Indices), l.Indices[q] < k)
+//@ pure lfresh(l *IndexWeightList) bool = l != nil && fresh(l) && (l.Indices == nil || fresh(l.Indices)) && (l.Weights == nil || fresh(l.Weights)) && (l.Indices == nil || !sameArray(l.Indices, l.Weights))
+//@ pure lapart(a *IndexWeightList, b *IndexWeightList) bool = a != b && (a.Indices == nil || (!sameArray(a.Indices, b.Indices) && !sameArray(a.Indices, b.Weights))) && (a.Weights == nil || (!sameArray(a.Weights, b.Indices) && !sameArray(a.Weights, b.Weights)))
+//@ func newIndexWeightList
+//@   assigns \nothing
+//@   ensures ret0 != nil && fresh(ret0) && ret0.Indices == nil && ret0.Weights == nil
+//@ property C25: newIndexWeightList, (*DBInfo).getIndicesAndWeights
+//@ func (*DBInfo).getIndicesAndWeights
+//@   requires dbi != nil && forall(i, 0, len(dbi.Nodes), dbi.Nodes[i] != nil) && len(dbi.Nodes) < 1<<30
+//@   assigns \nothing
+//@   loop 0 invariant case shape uses: lfresh(local) && lfresh(remote) && lfresh(global) && lapart(local, remote) && lapart(local, global) && lapart(remote, global)
+//@   loop 0 invariant case gPaired uses shape: paired(global, dbi) && increasing(global) && below(global, rangeindex + 1)
+//@   loop 0 invariant case lPaired uses shape: paired(local, dbi) && increasing(local) && below(local, rangeindex + 1) && forall(q, 0, len(local.Indices), dbi.Nodes[local.Indices[q]].Datacenter == proxyDatacenter)
+//@   loop 0 invariant case rPaired uses shape: paired(remote, dbi) && increasing(remote) && below(remote, rangeindex + 1) && forall(q, 0, len(remote.Indices), dbi.Nodes[remote.Indices[q]].Datacenter != proxyDatacenter)
+//@   loop 0 invariant case gAll uses shape, gPaired: forall(i, 0, rangeindex + 1, dbi.Nodes[i].Weight > 0 ==> mem(global.Indices, i))
+//@   loop 0 invariant case lAll uses shape, lPaired: forall(i, 0, rangeindex + 1, dbi.Nodes[i].Weight > 0 && dbi.Nodes[i].Datacenter == proxyDatacenter ==> mem(local.Indices, i))
+//@   loop 0 invariant case rAll uses shape, rPaired: forall(i, 0, rangeindex + 1, dbi.Nodes[i].Weight > 0 && dbi.Nodes[i].Datacenter != proxyDatacenter ==> mem(remote.Indices, i))
+//@   ensures case global: paired(ret2, dbi) && increasing(ret2) && forall(i, 0, len(dbi.Nodes), dbi.Nodes[i].Weight > 0 ==> mem(ret2.Indices, i))
+//@   ensures case local:  paired(ret0, dbi) && increasing(ret0) && forall(q, 0, len(ret0.Indices), dbi.Nodes[ret0.Indices[q]].Datacenter == proxyDatacenter) && forall(i, 0, len(dbi.Nodes), dbi.Nodes[i].Weight > 0 && dbi.Nodes[i].Datacenter == proxyDatacenter ==> mem(ret0.Indices, i))
+//@   ensures case remote: paired(ret1, dbi) && increasing(ret1) && forall(q, 0, len(ret1.Indices), dbi.Nodes[ret1.Indices[q]].Datacenter != proxyDatacenter) && forall(i, 0, len(dbi.Nodes), dbi.Nodes[i].Weight > 0 && dbi.Nodes[i].Datacenter != proxyDatacenter ==> mem(ret1.Indices, i))
